@@ -71,6 +71,9 @@ def _to_py(v):
 #  one path
 # ======================================================================================================
 
+_CONFIRMED_FP = {}
+
+
 def run_concrete(mod, params, values, choices):
     """Run the harness on the unmodified real code with concrete values.  Returns the HConc object."""
     h = HConc(params, [(n, _to_py(v)) for n, v in values], choices)
@@ -126,12 +129,20 @@ def run_path(mod, params, prefix, opts):
         rec = {'label': cand.label, 'detail': cand.detail, 'params': params,
                'values': [(n, _frac_str(v)) for n, v in cand.values], 'choices': cand.choices,
                'decisions': len(c.decisions)}
+        fp = (cand.label, re.sub(r'[-+]?\d+(\.\d+)?(e[-+]?\d+)?', '#', str(cand.detail)))
+        if _CONFIRMED_FP.get(fp, 0) >= 3:
+            # the same failure (clause + detail up to numbers) already reproduced three times in this worker:
+            # further instances are counted without paying for another replay
+            rec['concrete_failures'] = 'same fingerprint as three replayed counterexamples'
+            out['confirmed'].append(rec)
+            continue
         try:
             hc = run_concrete(mod, params, cand.values, cand.choices)
             fails = hc.failures
             rec['concrete_failures'] = [(lab, str(d)[:300] if d is not None else None) for lab, d in fails]
             if any(lab == cand.label for lab, _ in fails):
                 out['confirmed'].append(rec)
+                _CONFIRMED_FP[fp] = _CONFIRMED_FP.get(fp, 0) + 1
             else:
                 out['unconfirmed'].append(rec)
         except Exception as e:
@@ -332,11 +343,13 @@ def load_known():
         return json.load(f)
 
 
-def match_known(known, prop, config, label):
+def match_known(known, prop, config, label, detail=''):
+    """a listed finding is identified by property + regexes over clause label, config label and failure detail"""
     for k in known['known']:
         if k['property'] != prop:
             continue
-        if re.search(k['label'], label) and re.search(k.get('config', '.*'), config):
+        if re.search(k['label'], label) and re.search(k.get('config', '.*'), config) \
+                and re.search(k.get('detail', '.*'), str(detail), re.S):
             return k
     return None
 
@@ -394,7 +407,7 @@ def run_check(prop, tier, seed=0, only=None, nproc=None, serial=False, verbose=T
         per_config.append((label, params, agg))
         # fold
         for r in agg.confirmed:
-            k = match_known(known, prop, label, r['label'])
+            k = match_known(known, prop, label, r['label'], r.get('detail'))
             if k is not None:
                 known_hits.setdefault(k['id'], [k, 0])[1] += 1
             else:
